@@ -78,7 +78,12 @@ class MQTTTransport(Transport):
                 qos = 0
             tasks.append(self._subscribe(topic, qos))
 
-        await asyncio.gather(*tasks)
+        try:
+            await asyncio.gather(*tasks)
+        except BaseException:
+            # Do not leave the receive task and the broker connection behind.
+            await self._disconnect()
+            raise
 
     async def disconnect(self) -> None:
         """Disconnect the transport."""
